@@ -667,6 +667,28 @@ func (x *Exec) frameObligations(final, entry *State, c *Contract) {
 				hk, _ := x.heapKeyT(t)
 				covered[hk] = true
 			}
+		case strings.HasPrefix(m, "*") && strings.Contains(m, "[]."):
+			// *param[].Field: the objects the Field pointers of the elements of param refer to, and nothing else of that
+			// type: the heap is covered here, and the precise claim is an obligation of its own (below)
+			if pn, fld, elemT, ok := x.elemFieldItem(m, c); ok {
+				hk, _ := x.heapKeyT(elemT)
+				covered[hk] = true
+				src := fmt.Sprintf("forall d_f *%s :: !fresh(d_f) && (forall i_f int :: 0 <= i_f && i_f < len(%s) ==> %s[i_f].%s != d_f) ==> *d_f == old(*d_f)",
+					types.TypeString(elemT, func(p *types.Package) string { return p.Name() }), pn, pn, fld)
+				if e, err := parseSpecExpr(src); err == nil {
+					names := map[string]Val{}
+					for k, v := range x.entry {
+						names[k] = v
+					}
+					env := x.specEnv(final, entry, names, c.PkgPath)
+					x.assertNamed(final, "frame.elems("+sanitize(m)+")", "frame", env.boolean(e),
+						"only what "+m+" lists is written: "+src, token.Position{Filename: c.File, Line: c.Line})
+				} else {
+					panic(unsupported("modifies " + m + ": " + err.Error()))
+				}
+			} else {
+				all = true
+			}
 		case strings.HasPrefix(m, "*"):
 			// *param: any heap may be the pointee; frames are not generated for extern/interface contracts anyway
 			all = true
@@ -772,4 +794,45 @@ func (p *Program) acquiredOnReceiver(fn *types.Func, depth int) map[string]bool 
 		return true
 	})
 	return out
+}
+
+// elemFieldItem parses the modifies item *param[].Field of contract c (of the function under verification, or of a
+// callee whose signature is sig): the parameter name, the field name and the type the field points to.
+func (x *Exec) elemFieldItem(m string, c *Contract) (param, field string, pointee types.Type, ok bool) {
+	return x.prog.elemFieldItemSig(m, x.sig)
+}
+
+func (p *Program) elemFieldItemSig(m string, sig *types.Signature) (param, field string, pointee types.Type, ok bool) {
+	body := strings.TrimPrefix(m, "*")
+	k := strings.Index(body, "[].")
+	if k < 0 || sig == nil {
+		return
+	}
+	param, field = body[:k], body[k+3:]
+	for i := 0; i < sig.Params().Len(); i++ {
+		pv := sig.Params().At(i)
+		if pv.Name() != param {
+			continue
+		}
+		sl, isSl := pv.Type().Underlying().(*types.Slice)
+		if !isSl {
+			return
+		}
+		et := sl.Elem()
+		if pt, isPtr := et.Underlying().(*types.Pointer); isPtr {
+			et = pt.Elem()
+		}
+		stt, isSt := et.Underlying().(*types.Struct)
+		if !isSt {
+			return
+		}
+		for j := 0; j < stt.NumFields(); j++ {
+			if stt.Field(j).Name() == field {
+				if fp, isPtr := stt.Field(j).Type().Underlying().(*types.Pointer); isPtr {
+					return param, field, fp.Elem(), true
+				}
+			}
+		}
+	}
+	return
 }
